@@ -5,7 +5,7 @@ ClosedSurfacePhasorPoyntingFluxDetector is iterated over all T steps of a placed
 placement produced, as ``update_detector_states`` does) with a *fresh symbolic field per step*.  The accumulated state is a
 linear form in T x 6 x cells unknowns; z3 decides, per entry, that it equals the oracle
 ``scale * sum_{t recorded} w(t) f_t (cos(w t dt) + i sin(w t dt))`` with the cos/sin/window tables computed in the harness
-(tolerance mode: fields boxed to [-1, 1], |code - oracle| <= 1e-9 (1 + sum |coefficients|); QF_LRA).
+(tolerance mode: fields boxed to [-1, 1], |code - oracle| <= 1e-6 (1 + sum |coefficients|); QF_LRA).
 
 Stage 2 ("flux" cases): ``compute_poynting_flux`` / ``compute_net_flux`` are interpreted on a *symbolic complex phasor
 state* and must equal Re(E x H*) (times 1/2 in continuous mode) integrated with the harness' own face areas -- exact (==)
@@ -32,7 +32,7 @@ from .. import jx2smt as jx
 from .. import sc
 from ..core import Inconclusive, model_array
 from .c16 import (C0, SP, _ALL, _plane, _signed, _t32, _tree_np, area_weights, canon_components, drive, dyadic_widths, mini_scene, o_add, o_div,
-                  o_mul, o_neg, o_ssum, o_sub, o_total, vol_weights)
+                  o_mul, o_neg, o_ssum, o_sub, o_total, prove_entries, vol_weights)
 
 META = dict(
     functions=["PhasorDetector.update", "PhasorDetector._static_scale", "PhasorDetector._calculate_on_list", "PhasorDetector._resolve_dft_stride",
@@ -42,7 +42,7 @@ META = dict(
                "poynting_flux._phasor_poynting_vector", "core.physics.metrics.compute_poynting_flux"],
     assumptions=[
         "reals instead of floats; the harness' cos/sin/window tables differ from the code's by float round-off, hence tolerance queries: "
-        "all field samples in [-1, 1], |code - oracle| <= 1e-9 (1 + sum |oracle coefficients|)",
+        "all field samples in [-1, 1], |code - oracle| <= 1e-6 (1 + sum |oracle coefficients|) (1e-6 because the code stores its window table in float32)",
         "the set of *active* steps of the on/off switch is taken from OnOffSwitch.calculate_on_list (subject of C14); the thinning to every stride-th "
         "active step, the stride ('auto' included), the window and the scale are recomputed by the harness",
         "detector state starts from the real init_state (zeros); update is gated by the placed on-mask exactly as update_detector_states does",
@@ -271,7 +271,7 @@ def _run_dft(c, case, rng):
             comps = cfg["comps"] if cfg["cls"] == "phasor" else list(_ALL)
             series = np.stack([canon_components(Es[t], Hs[t], comps) for t in range(T)], axis=0)  # (T, C, *rs)
             ph = _dft(coef, series)  # (F, C, *rs)
-            key = f"{cfg['cls']}:dft:apod={cfg['apod']}"
+            key = f"{'closed_phasor' if cfg['cls'] == 'closed' else cfg['cls']}:dft:apod={cfg['apod']}"
             if cfg["cls"] == "closed":
                 for a in range(3):
                     for side in ("min", "max"):
@@ -284,14 +284,16 @@ def _run_dft(c, case, rng):
             p.append((f"{desc}: accumulated phasor == windowed DFT", key, jx.lift(out["phasor"])[0], ph))
             return p
 
-        tol = 1e-9 * (1.0 + max(sum(abs(v) for v in row) for row in coef))
+        # 1e-6 relative: the code keeps its window table in float32 (on-mask cast), i.e. it carries ~6e-8 relative round-off
+        tol = 1e-6 * (1.0 + max(sum(abs(v) for v in row) for row in coef))
         _drive_tol(c, f"dft[{n}]", real, [Es, Hs], pairs, box, tol, rng)
         # the recorded-step bookkeeping the scale depends on, as plain concrete facts of the real placement
         c.prove(f"{desc}: num_time_steps_recorded == |recorded steps|", bool(int(d.num_time_steps_recorded) == len(rec)), key=f"{cfg['cls']}:recorded-count")
 
 
 def _drive_tol(c, tag, real, syms, pairs_fn, box, tol, rng):
-    """like c16.drive, but tolerance mode (QF_LRA) and a float64 replay threshold 1e3 x tolerance."""
+    """like c16.drive, but tolerance mode (QF_LRA); the float64 replay must reproduce a deviation of at least tol / 2 (tol is
+    already ~100x above the float32 round-off level of the code's tables)."""
     t0 = time.time()
     out, tr = jx.call(real, *syms)
     c.interp_s += time.time() - t0
@@ -311,11 +313,11 @@ def _drive_tol(c, tag, real, syms, pairs_fn, box, tol, rng):
             nm, key, l, r = p[i]
             l, r = np.asarray(jx.to_numeric(jx.lift(l))), np.asarray(jx.to_numeric(jx.lift(r)))
             err = float(np.max(np.abs(l - r)))
-            return err > 1e3 * tol, dict(obligation=nm, err=err, tol=tol, code=l, oracle=r, inputs=ci)
+            return err > 0.5 * tol, dict(obligation=nm, err=err, tol=tol, code=l, oracle=r, inputs=ci)
         return replay
 
     for i, (nm, key, l, r) in enumerate(pairs):
-        c.prove_eq(f"{tag} {nm}", l, r, box, mk_replay(i), key=key, tol=tol)
+        prove_entries(c, f"{tag} {nm}", l, r, box, mk_replay(i), key, tol=tol)
     # vacuity twin: some entry of the accumulated state can be non-zero inside the box
     flat = [v for v in jx.lift(pairs[0][2]).reshape(-1)]
     v = next((x for x in flat if sc.is_symbolic_scalar(x)), None)
